@@ -2,6 +2,7 @@ package main
 
 import (
 	"fmt"
+	"go/constant"
 	"go/token"
 	"go/types"
 	"os"
@@ -119,6 +120,17 @@ func loadProgram(dir string, extraEnv []string, overlay map[string][]byte) *Prog
 		if fn.Pkg != nil && strings.HasPrefix(fn.Pkg.Pkg.Path(), modPath) && len(fn.Blocks) > 0 {
 			p.NFuncs++
 			p.NBlocks += len(fn.Blocks)
+			if os.Getenv("XLINT_DUMP_CONV") != "" && !isGeneratedFn(p, fn) {
+				for _, b := range fn.Blocks {
+					for _, ins := range b.Instrs {
+						if cv, ok := ins.(*ssa.Convert); ok && !p.IsClone(cv) {
+							if tag := lossyConv(cv); tag != "" {
+								fmt.Fprintf(os.Stderr, "CONV %s %s %s\n", tag, funcName(fn), p.Fset.Position(cv.Pos()))
+							}
+						}
+					}
+				}
+			}
 		}
 	}
 	return p
@@ -274,4 +286,22 @@ func inTeleport(fn *ssa.Function) bool {
 		}
 	}
 	return false
+}
+
+// Const returns the string value of a package-level string constant given as "<package path suffix>.<name>".
+func (p *Program) Const(spec string) (string, bool) {
+	i := strings.LastIndex(spec, ".")
+	if i < 0 {
+		return "", false
+	}
+	pkg, name := spec[:i], spec[i+1:]
+	for _, sp := range p.SSA.AllPackages() {
+		if sp.Pkg.Path() != modPath+"/"+pkg {
+			continue
+		}
+		if nc, ok := sp.Members[name].(*ssa.NamedConst); ok && nc.Value != nil && nc.Value.Value != nil && nc.Value.Value.Kind() == constant.String {
+			return constant.StringVal(nc.Value.Value), true
+		}
+	}
+	return "", false
 }
